@@ -345,6 +345,10 @@ def run(ctx, rep) -> None:
 
     rep.attempt("selector_construction", selector_construction, ctx, rep, "C06.3")
     rep.attempt("global_selector_is_ownership_independent", global_selector_is_ownership_independent, ctx, rep, "C06.3")
+    from .c03 import _Proxy
+    from .c17 import _dispatch_tables
+
+    rep.attempt("distributor_dispatch", _dispatch_tables, ctx, _Proxy(rep, "C17.4", "C06.3"), only=("_instantiate_distributor",))
     from .c04 import stateful_cursors_advance
 
     rep.attempt("stateful_cursors_advance", stateful_cursors_advance, ctx, rep, "C06.3")
